@@ -84,5 +84,7 @@ bool ops_c15(Ctx &c, Toks const &t);
 bool ops_c11(Ctx &c, Toks const &t);
 bool ops_bias(Ctx &c, Toks const &t);
 bool ops_c13(Ctx &c, Toks const &t);
+bool ops_c09(Ctx &c, Toks const &t);
+bool ops_c10(Ctx &c, Toks const &t);
 
 #endif
